@@ -50,6 +50,10 @@ class Config(object):
             cand_or = [0.0, 0.3, -1.1, 2.0, -0.05]
         dx0 = rng.sample(cand_dx, 3)
         origin = [rng.choice(cand_or) for _ in range(3)]
+        # domains straddling the origin with a cell face on (or within rounding of) the coordinate plane 0
+        for d in range(3):
+            if rng.random() < 0.3:
+                origin[d] = -dx0[d] * rng.choice([1, 2, 3])
         return Config(seed=rng.randrange(1 << 30), origin=origin, dx0=dx0, payload=payload,
                       trailing_blank=rng.random() < 0.7, long_ratio=rng.random() < 0.3,
                       file_gaps=rng.random() < 0.3,
